@@ -1227,6 +1227,8 @@ func (d *TD) chooseAction(plan *HandPlan, gs *pokerface.GameState, turn int) (st
 		w = map[string]int{"fold": 3, "check": 5, "call": 20, "allin": 35, "bet": 20, "raise": 25}
 	case "foldy":
 		w = map[string]int{"fold": 50, "check": 20, "call": 10, "allin": 3, "bet": 5, "raise": 5}
+	case "raisy": // minimum raises as long as the hand offers them
+		w = map[string]int{"fold": 0, "check": 4, "call": 4, "allin": 1, "bet": 90, "raise": 90}
 	}
 	tot := 0
 	for _, a := range al {
@@ -1252,7 +1254,7 @@ func (d *TD) chooseAction(plan *HandPlan, gs *pokerface.GameState, turn int) (st
 			amt = hi
 		} else {
 			amt = lo + d.rng.Int63n(hi-lo+1)
-			if d.rng.Intn(4) == 0 {
+			if d.rng.Intn(4) == 0 || plan.Policy == "raisy" {
 				amt = lo
 			}
 		}
@@ -1262,7 +1264,7 @@ func (d *TD) chooseAction(plan *HandPlan, gs *pokerface.GameState, turn int) (st
 			amt = hi
 		} else {
 			amt = lo + d.rng.Int63n(hi-lo+1)
-			if d.rng.Intn(4) == 0 {
+			if d.rng.Intn(4) == 0 || plan.Policy == "raisy" {
 				amt = lo
 			}
 		}
